@@ -19,6 +19,8 @@ let parse_op (o : string) : lop option =
     match split ':' o with
     | ["k"] -> Some LCancel
     | ["xP"] -> Some LPlain
+    | ["ES"] -> Some (LAcceptFail PSmtp)
+    | ["EP"] -> Some (LAcceptFail PPop3)
     | ["G"] -> Some LGate
     | ["U"] -> Some LUngate
     | [a; _] when a.[0] = 'b' -> Some (LBusy (num (rest_of a)))
@@ -46,7 +48,7 @@ let parse_op (o : string) : lop option =
 
 let tok (x : lobs) : string =
   match x with
-  | XErr -> "-ERR" | XParked -> "parked" | XDropped -> "dropped" | XDot -> "." | XQ -> "?" | XRefused -> "refused" | XHeld -> "held" | XAccepted -> "accepted"
+  | XNotified -> "notified" | XErr -> "-ERR" | XParked -> "parked" | XDropped -> "dropped" | XDot -> "." | XQ -> "?" | XRefused -> "refused" | XHeld -> "held" | XAccepted -> "accepted"
   | XCode c -> string_of_int (int_of_nat c)
   | XOk -> "+OK"
   | XFinS (d, q, n) ->
@@ -56,7 +58,7 @@ let tok (x : lobs) : string =
 
 let parse_obs (t : string) : lobs =
   match t with
-  | "-ERR" -> XErr | "parked" -> XParked | "dropped" -> XDropped | "." -> XDot | "?" -> XQ | "refused" -> XRefused | "held" -> XHeld | "accepted" -> XAccepted
+  | "notified" -> XNotified | "-ERR" -> XErr | "parked" -> XParked | "dropped" -> XDropped | "." -> XDot | "?" -> XQ | "refused" -> XRefused | "held" -> XHeld | "accepted" -> XAccepted
   | "+OK" -> XOk | "returned" -> XReturned | "blocked" -> XBlocked | "joined" -> XJoined | "ok" -> XFine
   | _ ->
     (try
